@@ -389,10 +389,25 @@ Definition K (argc flags : N) : cmd :=
   mkCmd 0 (N.to_nat argc) (N.testbit flags 0) (N.testbit flags 1) (N.testbit flags 2)
         (N.testbit flags 3) (N.testbit flags 4) (N.testbit flags 5).
 
+(** What the reader does to a queue entry once its last reply has arrived, in program order ([AComplete m]):
+    first the hand-over on the entry's channel (`ch <- NewResult(m, nil)`), which waits for the entry's owner - or
+    the goroutine an abandoning owner leaves behind - to receive; only then the release of the entry
+    (`p.queue.FinishResult()`).  The channel belongs to the entry and is reused by its next occupant, so the
+    release is what lets somebody else listen on it.  Observed events of one entry, in the order of the trace:
+    1 = the owner's side was let through to its receive, 2 = the entry was released, 3 = a producer that had been
+    waiting for the entry occupied it.  The program order above allows 2 and 3 only after 1. *)
+Definition complete_order : list N := [1; 2; 3]%N.
+Fixpoint order_ok (seen : bool) (evs : list N) : bool :=
+  match evs with
+  | [] => true
+  | e :: r => if N.eqb e 1 then order_ok true r else seen && order_ok seen r
+  end.
+
 Inductive case :=
 | CConn (r2ps : bool) (ver : Z) (nsync : nat) (slots : list slot) (frames : list msg)
         (impl : list (N * list (option msg)))
-| CRun (conns : list case).
+| CRun (conns : list case)
+| COrder (evs : list N).
 
 Definition CC (r2ps : bool) (ver nsync : N) (slots : list slot) (frames : list msg)
            (impl : list (N * list (option msg))) : case :=
@@ -406,4 +421,10 @@ Fixpoint check_case (c : case) : bool :=
     | Some t => forallb (slot_agrees t) impl
     end
   | CRun cs => (fix all (l : list case) : bool := match l with [] => true | x :: r => check_case x && all r end) cs
+  | COrder evs => order_ok false evs
   end.
+
+Example complete_order_ok : order_ok false complete_order = true.
+Proof. reflexivity. Qed.
+Example release_before_handover_rejected : order_ok false [2; 3; 1]%N = false.
+Proof. reflexivity. Qed.
